@@ -455,9 +455,10 @@ Proof. intros H. unfold snprintf_into. apply firstn_all2. lia. Qed.
 (* InetAddress::toIp() / toIpPort() with their scratch arrays (sizes GENERATED from InetAddress.cc,
    size checks and the '[' offset GENERATED from SocketsOps.cc): no assert of SocketsOps.cc fires and
    nothing is truncated -- the strings are those of the unbounded model -- for every address and
-   port, provided inet_ntop(AF_INET6) prints at most INET6_ADDRSTRLEN - 1 = 45 characters *)
+   port, provided the IPv6 text has at most INET6_ADDRSTRLEN - 1 = 45 characters (C20_Ip6Proofs proves
+   39 for the RFC 5952 printer) *)
 Lemma inet_buffers ntop6 sa p :
-  (forall a, (length (ntop6 a) <= 45)%nat) ->
+  (sa_family sa = AF_INET6 -> (length (ntop6 (sa_addr sa)) <= 45)%nat) ->
   0 <= p < 65536 -> sa_port sa = port_store p ->
   (sa_family sa = AF_INET \/ sa_family sa = AF_INET6) ->
   (sa_family sa = AF_INET -> exists a b c d, sa_addr sa = [a; b; c; d]) ->
@@ -482,7 +483,7 @@ Proof.
       [|change InetAddress_toIpPort_bufsize with 64 in Hbad; lia].
     rewrite snprintf_into_fits; [reflexivity|].
     cbn [length]. change InetAddress_toIpPort_bufsize with 64. lia.
-  - rewrite (toIp_v6 _ _ Ef). rewrite Ef. pose proof (H6 (sa_addr sa)) as Hl.
+  - rewrite (toIp_v6 _ _ Ef). pose proof (H6 Ef) as Hl. rewrite Ef.
     change (AF_INET6 =? SocketsOps_toIp_family4) with false.
     change (AF_INET6 =? SocketsOps_toIp_family6) with true.
     change (AF_INET6 =? SocketsOps_toIpPort_family6) with true.
